@@ -21,6 +21,9 @@ class JsonSchemaParser:
     default_type = Any
 
     NON_NAME_REG = '[^A-Za-z0-9]+'
+    OBJECT_KEYWORDS = ('properties', 'required', 'additionalProperties', 'propertyNames',
+                       'minProperties', 'maxProperties', 'dependentRequired')
+    ARRAY_KEYWORDS = ('items', 'prefixItems', 'minItems', 'maxItems', 'uniqueItems')
 
     def __init__(self, json_schema: dict,
                  refs: Dict[str, dict] = None,
@@ -154,6 +157,12 @@ class JsonSchemaParser:
             constraints = self.get_constraints(schema)
 
         t = self.default_type
+        if not type:
+            # a schema without 'type' that uses the keywords of one kind of instance describes that kind
+            if any(k in schema for k in self.OBJECT_KEYWORDS):
+                type = 'object'
+            elif any(k in schema for k in self.ARRAY_KEYWORDS):
+                type = 'array'
         if type:
             if type == 'array':
                 return self.parse_array(
@@ -191,7 +200,8 @@ class JsonSchemaParser:
 
         if constraints:
             return Rule.annotate(
-                t,
+                # no type given: the constraints still apply (Rule.annotate drops them for Any)
+                None if t is Any else t,
                 name=name,
                 description=description,
                 constraints=constraints
